@@ -2,7 +2,7 @@
    Model: model/Context.v get_call_target over the scope chain (compared with rattr on every generated call site
    through the FunctionAnalyser correspondence), model/Results.v resolve (which targets are expanded).
    Specification: spec/Scoping.v expected_inline judges rattr's end-to-end answer per call site. *)
-From RattrV Require Import Base Str Context CallSwaps FuncAn Results C08Proofs C08Member.
+From RattrV Require Import Base Str ModNames Context CallSwaps FuncAn Results C08Proofs C08Member RootCtx RootCheck RootSpec RootProofs.
 Open Scope string_scope.
 Open Scope list_scope.
 
@@ -45,6 +45,17 @@ Theorem C08_parameter_named_like_function_refuted :
 Proof. exact parameter_named_like_function_refuted. Qed.
 Print Assumptions C08_parameter_named_like_function_refuted.
 
+(* REFUTED: a call on a call result f(x)(y) gets f as its target (finding KF_C08_2) *)
+Theorem C08_target_depends_only_on_the_unbracketed_name :
+  forall mexists c a b, without_call_brackets a = without_call_brackets b ->
+    get_call_target mexists c a = get_call_target mexists c b.
+Proof. exact target_depends_only_on_the_unbracketed_name. Qed.
+Theorem C08_call_on_call_result_targets_the_function_refuted :
+  without_call_brackets "helper()()" = without_call_brackets "helper"
+  /\ get_call_target (fun _ => false) [root_ex] "helper()()" = Some (mkSym "helper" KFunc).
+Proof. exact call_on_call_result_targets_the_function_refuted. Qed.
+Print Assumptions C08_call_on_call_result_targets_the_function_refuted.
+
 (* a dotted call m.f() where m is an imported module gets the import m.f as target (then followed by the import
    resolver, C06); where m is an import that is not a module (a from-imported class, function, constant) it gets none *)
 Theorem C08_module_member_call_targets_the_import :
@@ -65,3 +76,36 @@ Theorem C08_member_of_non_module_import_has_no_target :
     get_call_target mexists c name = None.
 Proof. exact member_of_non_module_import_has_no_target. Qed.
 Print Assumptions C08_module_member_call_targets_the_import.
+
+(* ---------- module level: which symbol a name has when the functions are analysed ---------- *)
+(* model/RootCtx.v (compile_root_context / RootContextBuilder; compared with rattr on generated modules placed at the
+   top level, inside packages and as a package __init__ - harness/root_run.py).  For a module without deletions and
+   starred imports: after the statements a name means what it meant before (builtins, dunder names), else what the
+   FIRST statement that offers it says - blocks flattened in the order register_stmts walks them. *)
+Theorem C08_first_module_level_binding_wins :
+  forall locatable blacklisted base is_init stmts sc sc',
+    forallb plain_stmt stmts = true ->
+    regs locatable blacklisted base is_init stmts sc = ROk sc' ->
+    forall n, scope_get sc' n = match scope_get sc n with
+                                | Some x => Some x
+                                | None => first_of (flat_map (binds base is_init) stmts) n
+                                end.
+Proof. exact regs_extends. Qed.
+Print Assumptions C08_first_module_level_binding_wins.
+
+(* REFUTED against Python (finding KF_C08_3): Python's rule is that the LAST binding wins - here an import is kept
+   although a function of that name is defined afterwards.  spec/RootSpec.v judges every generated straight-line
+   module against Python's rule (last_binding); all disagreements found are re-bindings. *)
+Theorem C08_first_binding_wins_refutes_last_binding :
+  regs (fun _ => true) (fun _ => false) "m" false
+       [TImportFrom (Some "lib") [mkAlias "parse" (Some "handle")] 0; TDef "handle"] []
+  = ROk [mkSym "handle" (KImport "lib.parse")]
+  /\ last_binding (flat_map (py_events "m" false) [TImportFrom (Some "lib") [mkAlias "parse" (Some "handle")] 0; TDef "handle"]) "handle" None
+     = Some (mkSym "handle" KFunc).
+Proof. split; reflexivity. Qed.
+(* `import p.x` binds the dotted name only (finding KF_C06_2): the name p stays unbound, so p.f() can never be inlined
+   from the wrong module *)
+Theorem C08_dotted_import_does_not_bind_the_package :
+  exists sc, regs (fun _ => true) (fun _ => false) "m" false [TImport [mkAlias "p.x" None]] [] = ROk sc
+             /\ scope_get sc "p" = None /\ scope_get sc "p.x" = Some (mkSym "p.x" (KImport "p.x")).
+Proof. exact dotted_import_does_not_bind_the_package. Qed.
